@@ -22,47 +22,30 @@ Ltac inv_bind H :=
 Ltac inv_ok H := inversion H; subst; clear H.
 
 (* ---- structural well-formedness: everything of an item except the bodies of its runs ---- *)
+Section Walk.
+(* T: a property of single tokens that every control word with a non-empty lower-case name has *)
+Variable T : tok -> Prop.
+Hypothesis HT : forall n p, nonempty_lower n = true -> T (TCtrl n p).
+Definition tl (l : list tok) : Prop := Forall T l.
+Definition bordT (o : option bord) : Prop := match o with Some b => tl (bd_style b) | None => True end.
+
 Definition scell_ok (c : cell) : Prop :=
-  bord_ok (ce_bl c) /\ bord_ok (ce_bt c) /\ bord_ok (ce_br c) /\ bord_ok (ce_bb c)
-  /\ brace_free (ce_vj c) /\ brace_free (ce_pf c).
+  bordT (ce_bl c) /\ bordT (ce_bt c) /\ bordT (ce_br c) /\ bordT (ce_bb c)
+  /\ tl (ce_vj c) /\ tl (ce_pf c).
 Definition sitem_ok (i : item) : Prop :=
   match i with
-  | IRow r => brace_free (rw_just r) /\ Forall scell_ok (rw_cells r)
-  | IPara pf _ => brace_free pf
+  | IRow r => tl (rw_just r) /\ Forall scell_ok (rw_cells r)
+  | IPara pf _ => tl pf
   | IBreak _ => True
-  | IPict p => brace_free (pc_align p) /\ brace_free (pc_blip p)
+  | IPict p => tl (pc_align p) /\ tl (pc_blip p)
   | IPage => True
   end.
-Definition runs_of (i : item) : list run :=
-  match i with
-  | IRow r => map ce_run (rw_cells r)
-  | IPara _ rs => rs
-  | _ => []
-  end.
-Definition bodies_ok (its : list item) : Prop := Forall run_ok (flat_map runs_of its).
-
-Lemma item_ok_of i : sitem_ok i -> Forall run_ok (runs_of i) -> item_ok i.
-Proof.
-  destruct i as [r|pf rs|g|p|]; cbn [sitem_ok runs_of item_ok]; try tauto.
-  intros [Hj Hc] Hr. split; [exact Hj|].
-  induction (rw_cells r) as [|c cs IH]; [constructor|].
-  inversion Hc; subst. inversion Hr; subst. constructor; [|apply IH; assumption].
-  destruct H1 as (a & b & c0 & d & e & f). repeat split; assumption.
-Qed.
-
-Lemma items_ok_of its : Forall sitem_ok its -> bodies_ok its -> Forall item_ok its.
-Proof.
-  unfold bodies_ok. induction its as [|i its IH]; intros Hs Hb; [constructor|].
-  inversion Hs; subst. cbn [flat_map] in Hb. apply Forall_app in Hb as [Hb1 Hb2].
-  constructor; [apply item_ok_of; assumption|apply IH; assumption].
-Qed.
-
 (* ---- code strings from the regenerated tables carry no braces ---- *)
-Lemma simple_code_brace_free s : simple_code s = true -> brace_free (lex s).
+Lemma simple_code_tl s : simple_code s = true -> tl (lex s).
 Proof.
-  unfold simple_code, brace_free. induction (lex s) as [|t ts IH]; cbn [all_b]; intro H; [constructor|].
+  unfold simple_code, tl. induction (lex s) as [|t ts IH]; cbn [all_b]; intro H; [constructor|].
   apply andb_prop in H as [H1 H2]. constructor; [|apply IH; exact H2].
-  destruct t; cbn in H1; try discriminate. split; discriminate.
+  destruct t; cbn in H1; try discriminate. apply andb_prop in H1 as [H1 _]. apply HT. exact H1.
 Qed.
 
 Lemma assoc_in {B} k (tbl : list (str * B)) v : assoc k tbl = Some v -> In (k, v) tbl \/ exists k', In (k', v) tbl.
@@ -73,12 +56,12 @@ Proof.
   - destruct (IH H) as [X|[k' X]]; [left; right; exact X|right; exists k'; right; exact X].
 Qed.
 
-Lemma code_tokens_brace_free tbl k ts :
-  table_simple tbl = true -> code_tokens tbl k = Some ts -> brace_free ts.
+Lemma code_tokens_tl tbl k ts :
+  table_simple tbl = true -> code_tokens tbl k = Some ts -> tl ts.
 Proof.
   unfold table_simple, code_tokens. intros Ht H.
   destruct (assoc k tbl) as [v|] eqn:E; [|discriminate]. cbn in H. inversion H; subst.
-  apply simple_code_brace_free.
+  apply simple_code_tl.
   assert (G : forall (l : list (str * str)), all_b (fun kv => simple_code (snd kv)) l = true ->
               forall k' v', In (k', v') l -> simple_code v' = true).
   { induction l as [|[a b] l IH]; cbn [all_b]; intros Hl k' v' Hin; [contradiction|].
@@ -89,27 +72,23 @@ Qed.
 Lemma of_opt_ok {A} (o : option A) e x : of_opt o e = Ok x -> o = Some x.
 Proof. destruct o; cbn; intro H; [inversion H; reflexivity|discriminate]. Qed.
 
-Lemma brace_free_app a b : brace_free a -> brace_free b -> brace_free (a ++ b).
-Proof. unfold brace_free. intros; apply Forall_app; split; assumption. Qed.
+Lemma tl_app a b : tl a -> tl b -> tl (a ++ b).
+Proof. unfold tl. intros; apply Forall_app; split; assumption. Qed.
 
-Lemma brace_free_ctrls (l : list tok) :
-  Forall (fun t => match t with TCtrl _ _ => True | _ => False end) l -> brace_free l.
-Proof.
-  unfold brace_free. intro H. eapply Forall_impl; [|exact H]. intros t Ht. destruct t; try contradiction. split; discriminate.
-Qed.
+Ltac lit := apply HT; reflexivity.
 
-Lemma para_fmt_ok t pf : para_fmt t = Ok pf -> brace_free pf.
+Lemma para_fmt_ok t pf : para_fmt t = Ok pf -> tl pf.
 Proof.
   unfold para_fmt. intro H. inv_bind H. inv_ok H. apply of_opt_ok in E.
-  pose proof (code_tokens_brace_free _ _ _ text_just_codes_simple E) as Hj.
+  pose proof (code_tokens_tl _ _ _ text_just_codes_simple E) as Hj.
   unfold ctrl, ctrlz. destruct (t_hyph t); destruct (Z.eqb (t_space t) 1); cbn [app];
-    repeat (apply Forall_cons; [split; discriminate|]); exact Hj.
+    repeat (apply Forall_cons; [apply HT; reflexivity|]); exact Hj.
 Qed.
 
-Lemma mk_border_ok ctx st col w r c b : mk_border ctx st col w r c = Ok b -> brace_free (bd_style b).
+Lemma mk_border_ok ctx st col w r c b : mk_border ctx st col w r c = Ok b -> tl (bd_style b).
 Proof.
   unfold mk_border. intro H. do 4 inv_bind H. inv_ok H. cbn. apply of_opt_ok in E2.
-  exact (code_tokens_brace_free _ _ _ border_codes_simple E2).
+  exact (code_tokens_tl _ _ _ border_codes_simple E2).
 Qed.
 
 (* ---- rows ---- *)
@@ -127,14 +106,14 @@ Proof.
       * inv_bind E5. inv_ok E5. cbn. eapply mk_border_ok; eassumption.
       * inv_ok E5. exact I.
     + eapply mk_border_ok; eassumption.
-    + apply of_opt_ok in E7. exact (code_tokens_brace_free _ _ _ vert_codes_simple E7).
+    + apply of_opt_ok in E7. exact (code_tokens_tl _ _ _ vert_codes_simple E7).
     + eapply para_fmt_ok; eassumption.
 Qed.
 
 Lemma encode_row_ok ctx a widths vals r rw : encode_row ctx a widths vals r = Ok rw -> sitem_ok (IRow rw).
 Proof.
   unfold encode_row. intro H. do 4 inv_bind H. inv_ok H. cbn. split.
-  - apply of_opt_ok in E1. exact (code_tokens_brace_free _ _ _ row_just_codes_simple E1).
+  - apply of_opt_ok in E1. exact (code_tokens_tl _ _ _ row_just_codes_simple E1).
   - eapply encode_cells_ok; eassumption.
 Qed.
 
@@ -178,7 +157,7 @@ Qed.
 Lemma subline_header_item_ok gv : Forall sitem_ok (subline_header_item gv).
 Proof.
   unfold subline_header_item. destruct (subline_text gv); [constructor|].
-  constructor; [|constructor]. cbn. unfold ctrl, ctrlz. repeat (apply Forall_cons; [split; discriminate|]). constructor.
+  constructor; [|constructor]. cbn. unfold ctrl, ctrlz. repeat (apply Forall_cons; [apply HT; reflexivity|]). constructor.
 Qed.
 
 Lemma spanning_row_ok ctx s text col its : spanning_row ctx s text col = Ok its -> Forall sitem_ok its.
@@ -186,15 +165,15 @@ Proof.
   unfold spanning_row. intro H. do 21 inv_bind H. do 2 inv_bind H.
   do 4 inv_bind H. do 2 inv_bind H. inv_ok H.
   constructor; [|constructor]. cbn. split.
-  - apply of_opt_ok in E27. exact (code_tokens_brace_free _ _ _ row_just_codes_simple E27).
+  - apply of_opt_ok in E27. exact (code_tokens_tl _ _ _ row_just_codes_simple E27).
   - constructor; [|constructor]. unfold scell_ok; cbn.
     assert (B : forall st b, (do code <- of_opt (code_tokens border_codes st) ValueErr;
                               Ok (Some {| bd_style := code; bd_w := default_border_width; bd_cf := None |})) = Ok b ->
-                             bord_ok b).
+                             bordT b).
     { intros st b Hb. inv_bind Hb. inv_ok Hb. cbn. apply of_opt_ok in E28.
-      exact (code_tokens_brace_free _ _ _ border_codes_simple E28). }
+      exact (code_tokens_tl _ _ _ border_codes_simple E28). }
     repeat split; try (eapply B; eassumption).
-    + apply of_opt_ok in E26. exact (code_tokens_brace_free _ _ _ vert_codes_simple E26).
+    + apply of_opt_ok in E26. exact (code_tokens_tl _ _ _ vert_codes_simple E26).
     + eapply para_fmt_ok; eassumption.
 Qed.
 
@@ -301,7 +280,7 @@ Proof.
       destruct (match image_dims fmt data with Some d0 => d0 | None => _ end) as [pw ph]. cbn.
       unfold align_tokens, blip_tokens, ctrl.
       split; repeat match goal with |- context [if ?c then _ else _] => destruct c end;
-        (apply Forall_cons; [split; discriminate|constructor]). }
+        (apply Forall_cons; [apply HT; reflexivity|constructor]). }
     apply Forall_app2.
     { destruct (d_footnote d); [|inv_ok E3; constructor].
       match type of E3 with (if ?c then _ else _) = _ => destruct c end;
@@ -319,6 +298,36 @@ Proof.
   - eapply encode_section_ok; eassumption.
   - eapply multi_sections_ok; eassumption.
   - eapply figure_pages_ok; eassumption.
+Qed.
+End Walk.
+
+(* ---- instance 1: no braces ---- *)
+Definition nobrace (t : tok) : Prop := t <> TOpen /\ t <> TClose.
+Lemma nobrace_ctrl n p : nonempty_lower n = true -> nobrace (TCtrl n p).
+Proof. intros _. split; discriminate. Qed.
+
+Definition runs_of (i : item) : list run :=
+  match i with
+  | IRow r => map ce_run (rw_cells r)
+  | IPara _ rs => rs
+  | _ => []
+  end.
+Definition bodies_ok (its : list item) : Prop := Forall run_ok (flat_map runs_of its).
+
+Lemma item_ok_of i : sitem_ok nobrace i -> Forall run_ok (runs_of i) -> item_ok i.
+Proof.
+  destruct i as [r|pf rs|g|p|]; cbn [sitem_ok runs_of item_ok]; try tauto.
+  intros [Hj Hc] Hr. split; [exact Hj|].
+  induction (rw_cells r) as [|c cs IH]; [constructor|].
+  inversion Hc; subst. inversion Hr; subst. constructor; [|apply IH; assumption].
+  destruct H1 as (a & b & c0 & d & e & f). repeat split; assumption.
+Qed.
+
+Lemma items_ok_of its : Forall (sitem_ok nobrace) its -> bodies_ok its -> Forall item_ok its.
+Proof.
+  unfold bodies_ok. induction its as [|i its IH]; intros Hs Hb; [constructor|].
+  inversion Hs; subst. cbn [flat_map] in Hb. apply Forall_app in Hb as [Hb1 Hb2].
+  constructor; [apply item_ok_of; assumption|apply IH; assumption].
 Qed.
 
 (* ---- canon keeps the one-group structure ---- *)
@@ -375,7 +384,7 @@ Proof.
   - inv_bind H. inv_ok H.
     change ([TOpen; ctrl name] ++ emit_items x ++ [TClose]) with (TOpen :: (ctrl name :: emit_items x) ++ [TClose]).
     apply neutral_group. apply (neutral_cons_ctrl (s2l name) None). apply emit_items_neutral.
-    apply items_ok_of; [eapply encode_text_line_ok; eassumption|apply Hb; exact E].
+    apply items_ok_of; [eapply (encode_text_line_ok nobrace nobrace_ctrl); eassumption|apply Hb; exact E].
   - inv_ok H. reflexivity.
 Qed.
 
@@ -409,7 +418,7 @@ Proof.
       apply neutral_app; [apply color_table_neutral|].
       apply neutral_app; [exact (header_footer_neutral _ _ _ _ Hh E1)|].
       apply neutral_app; [exact (header_footer_neutral _ _ _ _ Hf E2)|apply page_settings_neutral].
-    + apply emit_items_neutral. apply items_ok_of; [eapply document_pages_ok; eassumption|apply Hb; exact E].
+    + apply emit_items_neutral. apply items_ok_of; [eapply (document_pages_ok nobrace nobrace_ctrl); eassumption|apply Hb; exact E].
 Qed.
 
 (* a boolean form of the text-domain hypothesis, for examples *)
